@@ -14,9 +14,7 @@
 (* module, defines Rejects(i) (the set of clause names line i violates)    *)
 (* and instantiates the one-variable behaviour below.                      *)
 (***************************************************************************)
-EXTENDS EnvKit, TLCExt, Json, IOUtils
-
-CONSTANT Enabled     \* set of property ids whose clause groups are evaluated
+EXTENDS TraceIO
 
 VARIABLES l,         \* index of the last consumed line of the trace
           acc,       \* return accumulated so far on the current episode's main line (env-chosen unit)
@@ -25,22 +23,12 @@ VARIABLES l,         \* index of the last consumed line of the trace
                      \* implementation's own mask (antecedent of C06)
 tvars == <<l, acc, acc2, mk>>
 
-TraceLog == TLCEval(ndJsonDeserialize(IOEnv.TRACE_FILE))
-Hdr   == TraceLog[1]
-TraceCfg == Hdr.cfg
-NEv   == Len(TraceLog)
-StartLine == atoi(IOEnv.START_LINE)     \* 1 normally; >1 when resuming after an evaluation error
-
-Ev(i)  == TraceLog[i]
 Pre(i) == TraceLog[TraceLog[i].par].s          \* pre-state of step event i
 PreTs(i) == TraceLog[TraceLog[i].par].ts       \* timestep the agent saw before acting
 IsReset(i) == TraceLog[i].k = "reset"
 IsStep(i)  == TraceLog[i].k = "step"
 
-On(p) == p \in Enabled
 
-(* A clause group is a set of <<name, holds>> pairs; a verdict is the set of names that fail. *)
-Failed(group) == { c[1] : c \in { d \in group : ~d[2] } }
 
 (***************************************************************************)
 (* C03: FIRST, MID*, LAST protocol, generic over every environment.        *)
@@ -106,17 +94,6 @@ C11Group(i, T, sc, otherEnd) ==
     { <<"C11.last_at_time_limit", sc >= T => ts.type = LAST>>,
       <<"C11.no_mid_at_or_after_limit", ts.type = MID => sc < T>>,
       <<"C11.early_last_has_other_reason", (ts.type = LAST /\ sc < T) => otherEnd>> }
-
-(***************************************************************************)
-(* Reporting and acceptance.                                               *)
-(***************************************************************************)
-Report(i, rej) == IF rej = {} THEN TRUE ELSE PrintT(<<"REJECT", i, rej>>)
-(* Judge line i given its clause set cs: count it as applicable when some clause's antecedent
-   held (groups return {} when they do not apply), print the applicable marker and rejects. *)
-Judge(i, cs) ==
-  /\ IF cs = {} THEN TRUE ELSE PrintT(<<"APP", i>>)
-  /\ Report(i, Failed(cs))
-Accepted == TLCGet("stats").diameter = NEv - StartLine + 1
 
 (***************************************************************************)
 (* The behaviour: one step per trace line.  Cl(i) is the clause set of     *)
